@@ -173,7 +173,8 @@ def run(ck, m):
             tests_ = [bi for bi, t in lb.calls() if t['f'].get('ind') or callee_decl(t) in ('std::cmp::PartialEq::ne', 'std::cmp::PartialEq::eq')
                       or (P.bodies.get(callee(t)) is not None and P.bodies[callee(t)].locals[0] == 'bool' and P.bodies[callee(t)].argc == 2
                           and P.bodies[callee(t)].locals[1] == 'bool')]
-            okf = bool(pushes) and all(any(lb.dominates(tt, p_) != lb.dominates(ft, p_) for (s2, tt, ft) in bool_switches(lb, x))
+            okf = bool(pushes) and all(any(lb.dominates(tt, p_) != lb.dominates(ft, p_) or not _reaches_with_flags(lb, ft, set(pushes))
+                                           for (s2, tt, ft) in bool_switches(lb, x))
                                        for x in tests_ for p_ in pushes)
     ck.ob('C01.c', fn, 'filter-terms', okf,
           'the listing filter combines the system-key test, state != Deleted and the pattern function' if okf else
@@ -662,3 +663,65 @@ def state_table(P, ub):
                 walk(x, possible, result, seen)
     walk(0, set(variants), set(), frozenset())
     return {k: v for k, v in table.items()}
+
+
+
+def _reaches_with_flags(b, start, targets, limit=4000):
+    """can control reach one of `targets` from block `start` when boolean locals that were assigned a constant keep that value (a
+    `let listed = a && b && c; if listed { push }` stores `false` into the flag on the short-circuit edges: the CFG alone says the push is
+    reachable from there, the flag says it is not)"""
+    seen = set()
+    st = [(start, frozenset())]
+    n = 0
+    while st:
+        bi, env = st.pop()
+        if (bi, env) in seen or b.blocks[bi].get('cleanup'):
+            continue
+        seen.add((bi, env))
+        n += 1
+        if n > limit:
+            return True
+        if bi in targets:
+            return True
+        e = dict(env)
+        for s_ in b.blocks[bi]['s']:
+            if s_['k'] != 'assign' or s_['l'].get('p'):
+                continue
+            l_ = s_['l']['l']
+            rv = s_['r']
+            val = None
+            if rv['k'] == 'use':
+                o = rv['o']
+                if 'k' in o and isinstance(o['k'], dict) and o['k'].get('ty') == 'bool':
+                    v_ = o['k'].get('v', o['k'].get('val'))
+                    val = bool(v_) if v_ is not None else None
+                else:
+                    q = o.get('c') or o.get('m')
+                    if q and not q.get('p') and q['l'] in e:
+                        val = e[q['l']]
+            if val is None:
+                e.pop(l_, None)
+            else:
+                e[l_] = val
+        t = b.term(bi)
+        if t['k'] == 'call' and not t['d'].get('p'):
+            e.pop(t['d']['l'], None)
+        env2 = frozenset(e.items())
+        if t['k'] == 'switch':
+            q = t['o'].get('c') or t['o'].get('m')
+            if q and not q.get('p') and q['l'] in e:
+                want = '1' if e[q['l']] else '0'
+                nxt = None
+                for v_, tb in t['targets']:
+                    if str(v_) == want:
+                        nxt = tb
+                if nxt is None:
+                    nxt = t['else']
+                if not (nxt != start and b.dominates(nxt, start)):
+                    st.append((nxt, env2))
+                continue
+        for x in b.succ(bi):
+            if x != start and b.dominates(x, start):
+                continue          # a back edge: the next turn of the loop decides anew
+            st.append((x, env2))
+    return False
